@@ -133,3 +133,155 @@ Proof.
     + pose proof (count_lines_pos sa). lia.
     + pose proof (count_lines_pos sb). lia.
 Qed.
+
+(* ====================================================================================== *)
+(* Line texts of joined sources (C22)                                                       *)
+(* ====================================================================================== *)
+Lemma utf8_len_pos c : 1 <= utf8_len c.
+Proof. unfold utf8_len. destruct (c <? 128), (c <? 2048), (c <? 65536); lia. Qed.
+Lemma byte_len_nonneg s : 0 <= byte_len s.
+Proof. induction s as [|c r IH]; cbn; [lia|]. pose proof (utf8_len_pos c). lia. Qed.
+Lemma byte_len_app a b : byte_len (a ++ b) = byte_len a + byte_len b.
+Proof. induction a as [|c r IH]; cbn; [reflexivity|]. rewrite IH. lia. Qed.
+
+(* ---------- newline index under prepending ---------- *)
+Lemma nl_from_shift s off d : nl_from s (off + d) = map (fun x => x + d) (nl_from s off).
+Proof.
+  revert off. induction s as [|c r IH]; intro off; cbn; [reflexivity|].
+  destruct (c =? 10).
+  - cbn. f_equal. replace (off + d + 1) with (off + 1 + d) by lia. apply IH.
+  - replace (off + d + utf8_len c) with (off + utf8_len c + d) by lia. apply IH.
+Qed.
+Lemma nl_indices_nl s : nl_indices (10 :: s) = 0 :: map (fun x => x + 1) (nl_indices s).
+Proof. unfold nl_indices. cbn. f_equal. apply (nl_from_shift s 0 1). Qed.
+Lemma nl_indices_other c s : c <> 10 -> nl_indices (c :: s) = map (fun x => x + utf8_len c) (nl_indices s).
+Proof.
+  intro H. unfold nl_indices. cbn. replace (c =? 10) with false by (symmetry; apply Z.eqb_neq; exact H).
+  apply (nl_from_shift s 0 (utf8_len c)).
+Qed.
+Lemma count_lines_nl s : count_lines (10 :: s) = 1 + count_lines s.
+Proof. rewrite !count_lines_eq. change (count_nl (10 :: s)) with (S (count_nl s)). lia. Qed.
+Lemma count_lines_other c s : c <> 10 -> count_lines (c :: s) = count_lines s.
+Proof. intro H. rewrite !count_lines_eq. cbn [count_nl]. replace (c =? 10) with false by (symmetry; apply Z.eqb_neq; exact H). reflexivity. Qed.
+
+Lemma nl_from_ge s off : Forall (fun x => off <= x) (nl_from s off).
+Proof.
+  revert off. induction s as [|c r IH]; intro off; cbn; [constructor; [lia|constructor]|].
+  pose proof (utf8_len_pos c). destruct (c =? 10).
+  - constructor; [lia|]. eapply Forall_impl; [|apply IH]. cbn. intros; lia.
+  - eapply Forall_impl; [|apply IH]. cbn. intros; lia.
+Qed.
+
+Lemma nth_z_cons {A} (x : A) l i : 0 <= i -> nth_z (x :: l) (i + 1) = nth_z l i.
+Proof.
+  intro H. unfold nth_z. replace (i + 1 <? 0) with false by (symmetry; apply Z.ltb_ge; lia).
+  replace (i <? 0) with false by (symmetry; apply Z.ltb_ge; lia).
+  replace (Z.to_nat (i + 1)) with (S (Z.to_nat i)) by lia. reflexivity.
+Qed.
+Lemma nth_z_zero {A} (x : A) l : nth_z (x :: l) 0 = Some x.
+Proof. reflexivity. Qed.
+Lemma nth_z_map {A B} (f : A -> B) l i : nth_z (map f l) i = option_map f (nth_z l i).
+Proof. unfold nth_z. destruct (i <? 0); [reflexivity|]. apply nth_error_map. Qed.
+Lemma nth_z_some_range {A} (l : list A) i : 0 <= i < zlen l -> exists x, nth_z l i = Some x.
+Proof.
+  intro H. unfold nth_z. replace (i <? 0) with false by (symmetry; apply Z.ltb_ge; lia).
+  apply nth_error_in_range. exact H.
+Qed.
+Lemma nth_z_in {A} (l : list A) i x : nth_z l i = Some x -> In x l.
+Proof. unfold nth_z. destruct (i <? 0); [discriminate|]. apply nth_error_In. Qed.
+
+Definition shift_span (d : Z) (p : Z * Z) : Z * Z := (fst p + d, snd p + d).
+
+Lemma count_lines_len s : count_lines s = zlen (nl_indices s).
+Proof. reflexivity. Qed.
+
+Lemma raw_line_span_nonneg s n st e : raw_line_span s n = Some (st, e) -> 0 <= st.
+Proof.
+  unfold raw_line_span. destruct ((0 <=? n) && (n <? count_lines s)); [|discriminate].
+  intro H. inversion H; subst. destruct (n =? 0); [lia|].
+  destruct (nth_z (nl_indices s) (n - 1)) as [i|] eqn:E; [|lia].
+  apply nth_z_in in E. pose proof (nl_from_ge s 0) as G. rewrite Forall_forall in G. specialize (G _ E). lia.
+Qed.
+
+(* line n+1 of "\n" ++ s is line n of s, one byte further *)
+Lemma raw_line_span_nl s n : 0 <= n -> raw_line_span (10 :: s) (n + 1) = option_map (shift_span 1) (raw_line_span s n).
+Proof.
+  intro Hn. unfold raw_line_span. rewrite count_lines_nl, nl_indices_nl.
+  replace (0 <=? n + 1) with true by (symmetry; apply Z.leb_le; lia).
+  replace (0 <=? n) with true by (symmetry; apply Z.leb_le; lia). cbn [andb].
+  destruct (n <? count_lines s) eqn:E.
+  - apply Z.ltb_lt in E. replace (n + 1 <? 1 + count_lines s) with true by (symmetry; apply Z.ltb_lt; lia).
+    replace (n + 1 =? 0) with false by (symmetry; apply Z.eqb_neq; lia).
+    replace (n + 1 - 1) with n by lia. cbn [option_map]. unfold shift_span. cbn [fst snd]. f_equal. f_equal.
+    + destruct (n =? 0) eqn:E0.
+      * apply Z.eqb_eq in E0. subst. rewrite nth_z_zero. lia.
+      * apply Z.eqb_neq in E0. replace n with (n - 1 + 1) at 1 by lia. rewrite nth_z_cons by lia.
+        rewrite nth_z_map. destruct (nth_z_some_range (nl_indices s) (n - 1)) as (i & Hi); [rewrite <- count_lines_len; lia|].
+        rewrite Hi. cbn [option_map]. lia.
+    + rewrite nth_z_cons by lia. rewrite nth_z_map. cbn [byte_len]. change (utf8_len 10) with 1.
+      destruct (nth_z (nl_indices s) n); cbn [option_map]; lia.
+  - apply Z.ltb_ge in E. replace (n + 1 <? 1 + count_lines s) with false by (symmetry; apply Z.ltb_ge; lia). reflexivity.
+Qed.
+(* line n >= 1 of c ++ s (c not a newline) is line n of s, utf8_len c bytes further *)
+Lemma raw_line_span_other c s n : c <> 10 -> 1 <= n ->
+  raw_line_span (c :: s) n = option_map (shift_span (utf8_len c)) (raw_line_span s n).
+Proof.
+  intros Hc Hn. unfold raw_line_span. rewrite (count_lines_other c s Hc), (nl_indices_other c s Hc).
+  destruct ((0 <=? n) && (n <? count_lines s)) eqn:E; [|reflexivity].
+  apply andb_true_iff in E. destruct E as (_ & E). apply Z.ltb_lt in E.
+  replace (n =? 0) with false by (symmetry; apply Z.eqb_neq; lia).
+  cbn [option_map]. unfold shift_span. cbn [fst snd]. f_equal. f_equal.
+  - rewrite nth_z_map. destruct (nth_z_some_range (nl_indices s) (n - 1)) as (i & Hi); [rewrite <- count_lines_len; lia|].
+    rewrite Hi. cbn [option_map]. lia.
+  - rewrite nth_z_map. cbn [byte_len]. destruct (nth_z (nl_indices s) n); cbn [option_map]; lia.
+Qed.
+
+(* ---------- substrings under prepending ---------- *)
+Lemma sub_from_shift s off a b d : sub_from s (off + d) (a + d) (b + d) = sub_from s off a b.
+Proof.
+  revert off. induction s as [|c r IH]; intro off; cbn; [reflexivity|].
+  replace (a + d <=? off + d) with (a <=? off) by (destruct (Z.leb_spec a off), (Z.leb_spec (a + d) (off + d)); lia || reflexivity).
+  replace (off + d <? b + d) with (off <? b) by (destruct (Z.ltb_spec off b), (Z.ltb_spec (off + d) (b + d)); lia || reflexivity).
+  replace (off + d + utf8_len c) with (off + utf8_len c + d) by lia. rewrite IH. reflexivity.
+Qed.
+Lemma substr_cons_shift c s a b : 0 <= a -> substr (c :: s) (a + utf8_len c) (b + utf8_len c) = substr s a b.
+Proof.
+  intro Ha. unfold substr. cbn [sub_from]. pose proof (utf8_len_pos c).
+  replace (a + utf8_len c <=? 0) with false by (symmetry; apply Z.leb_gt; lia). cbn [andb].
+  apply (sub_from_shift s 0 a b (utf8_len c)).
+Qed.
+
+Lemma trim_start_len s : byte_len (trim_start s) <= byte_len s.
+Proof.
+  induction s as [|c r IH]; cbn; [lia|]. destruct (is_ws c); cbn; [|lia]. pose proof (utf8_len_pos c). lia.
+Qed.
+
+Lemma read_line_shift c s n : (c = 10 -> False) \/ True -> forall m,
+  raw_line_span (c :: s) m = option_map (shift_span (utf8_len c)) (raw_line_span s n) ->
+  read_line (c :: s) m = read_line s n.
+Proof.
+  intros _ m H. unfold read_line, line_span. rewrite H.
+  destruct (raw_line_span s n) as [(st, e)|] eqn:E; [|reflexivity].
+  cbn [option_map shift_span fst snd]. pose proof (raw_line_span_nonneg _ _ _ _ E) as Hst.
+  rewrite (substr_cons_shift c s st e Hst).
+  set (l := substr s st e). set (et := trim_end l).
+  pose proof (trim_start_len et).
+  replace (e + utf8_len c - (byte_len l - byte_len et)) with (e - (byte_len l - byte_len et) + utf8_len c) by lia.
+  replace (st + utf8_len c + (byte_len et - byte_len (trim_start et))) with (st + (byte_len et - byte_len (trim_start et)) + utf8_len c) by lia.
+  rewrite substr_cons_shift by lia. reflexivity.
+Qed.
+Lemma read_line_nl s n : 0 <= n -> read_line (10 :: s) (n + 1) = read_line s n.
+Proof. intro H. apply read_line_shift; [auto|]. change (utf8_len 10) with 1. apply raw_line_span_nl. exact H. Qed.
+Lemma read_line_other c s n : c <> 10 -> 1 <= n -> read_line (c :: s) n = read_line s n.
+Proof. intros Hc H. apply read_line_shift; [auto|]. apply raw_line_span_other; assumption. Qed.
+
+(* line (count_lines a + k) of a ++ "\n" ++ b is line k of b *)
+Theorem lines_append a b k : 0 <= k -> read_line (a ++ [10] ++ b) (count_lines a + k) = read_line b k.
+Proof.
+  intro Hk. induction a as [|c r IH].
+  - change (count_lines []) with 1. cbn [app]. replace (1 + k) with (k + 1) by lia. apply read_line_nl. exact Hk.
+  - cbn [app]. destruct (Z.eq_dec c 10) as [->|Hc].
+    + rewrite count_lines_nl. replace (1 + count_lines r + k) with (count_lines r + k + 1) by lia.
+      rewrite read_line_nl by (pose proof (count_lines_pos r); lia). exact IH.
+    + rewrite (count_lines_other c r Hc). rewrite read_line_other; [exact IH|exact Hc|pose proof (count_lines_pos r); lia].
+Qed.
